@@ -19,7 +19,7 @@ RULE = ('Noll indices 1..231 (quick) / 1..1326 (thorough) enumerated completely 
 ASSUMPTIONS = ['the sign of sine modes is not pinned by the property: +sin and -sin are both accepted (per mode)']
 PLAN = {'quick': {'gen': 8}, 'thorough': {'gen': 16, 'tests': 1, 'docs': 1}}
 REQUIRED_BUCKETS = ['index', 'value:normalized', 'value:unnormalized', 'gram:diag', 'gram:offdiag', 'coords:even', 'coords:odd',
-                    'coords:offcentre', 'support-only', 'coords:shared', 'basis']
+                    'coords:offcentre', 'support-only', 'coords:shared', 'basis', 'compose:normalized', 'compose:unnormalized']
 REQUIRED_ANCHORS = ['probe:zernike_index', 'anchor:R', 'anchor:zernike', 'anchor:zernike_coordinates']
 REQUIRED_ORACLES = ['index=noll', 'index:bijective', 'mode=textbook', 'R(1)=1', 'gram=I', '|Z|<=1', 'rho=centroid-distance',
                     'origin=centroid', 'zero-outside', 'support-only']
@@ -296,6 +296,40 @@ def workload(ctx, lentil):
             wts = mask * 10.0 ** rng.uniform(-14, 6, size=shape) * rng.choice([-1, 1], size=shape)
         zb = np.asarray(lentil.zernike(wts, j), float)
         ctx.case(dict(desc, weighted=True, mode=j), ['support-only'])
+        # the coordinate function called directly with the weighted mask (the two-step use through rho=, theta=)
+        try:
+            rho_w, theta_w = lentil.zernike_coordinates(wts)
+            ctx.close('support-only', rho_w, rho_l, 1e-13, 'coords|support-only|zernike_coordinates',
+                      'zernike_coordinates depends on the mask values, not only on its support', dict(desc, mode=j),
+                      scale=max(1.0, float(np.abs(rho_l).max())))
+            ctx.check(bool(np.allclose(np.exp(1j * theta_w), np.exp(1j * theta_l), rtol=0, atol=1e-12)), 'support-only',
+                      'coords|support-only|zernike_coordinates|theta', 'theta from zernike_coordinates depends on the mask values',
+                      dict(desc, mode=j))
+            zc = np.asarray(lentil.zernike(wts, j, rho=rho_w, theta=theta_w), float)
+            ctx.close('support-only', zc, za, 1e-12, 'coords|support-only|two-step',
+                      'a mode built on zernike_coordinates(weighted mask) differs from the mode of the binary support', dict(desc, mode=j),
+                      scale=max(1.0, float(np.abs(za).max())))
+        except Exception as e:
+            ctx.check(False, 'support-only', f'coords|support-only|raises={type(e).__name__}', str(e), desc)
+        # compose: a unit coefficient vector reproduces the single mode under either normalisation, keyword or positional
+        try:
+            nrm = bool(i % 2)
+            cvec = np.zeros(max(j, 3)); cvec[j - 1] = 1.0
+            zsingle = np.asarray(lentil.zernike(mask.astype(float), j, normalize=nrm), float)
+            zcomp = np.asarray(Z.zernike_compose(mask.astype(float), cvec, normalize=nrm) if i % 4 < 2 else
+                               Z.zernike_compose(mask.astype(float), list(cvec), nrm), float)
+            ctx.bucket('compose:normalized' if nrm else 'compose:unnormalized')
+            ctx.close('mode=textbook', zcomp, zsingle, 1e-12, f'compose|unit-vector|normalize={nrm}',
+                      'zernike_compose with a unit coefficient vector differs from the single mode with the same normalisation',
+                      dict(desc, mode=j, normalize=nrm), scale=max(1.0, float(np.abs(zsingle).max())))
+            if not nrm:
+                n_c, m_c, _ = _NOLL[j]
+                cond_c = float(sum(abs(c) for c in rm.radial_coeffs(n_c, m_c).values()))
+                bigc = max(1.0, float(np.max(rho_l[mask]))) ** n_c
+                ctx.check(bool(np.all(np.abs(zcomp) <= 1 + 256 * rm.EPS * cond_c * bigc + 1e-11)), '|Z|<=1', 'compose|bounded',
+                          'an unnormalised composed unit mode exceeds 1 in magnitude', dict(desc, mode=j))
+        except Exception as e:
+            ctx.check(False, 'mode=textbook', f'compose|raises={type(e).__name__}', str(e), desc)
         ctx.close('support-only', zb, za, 1e-13, 'coords|support-only',
                   'mode depends on the mask values, not only on its support', dict(desc, mode=j),
                   scale=max(1.0, float(np.abs(za).max())))
